@@ -40,6 +40,7 @@ static BUZHASH_TABLE: &[u32] = &[
 
 /// Rolling hash algorithm which can be used for chunking.
 #[derive(Clone)]
+#[cfg_attr(oll3_bita_verif, derive(Hash))]
 pub struct BuzHash {
     buf: Vec<u32>,
     index: usize,
